@@ -609,7 +609,51 @@ pub fn enumerate(thorough: bool, part: usize, _parts: usize, sink: &mut crate::r
         }
         sink.case(&o, true, || format!("scale case: intersection of {} stars of intersections of {} characters ({} derivative classes)", groups, per_group, n));
     }
-    sink.stats.exhaustive_spaces.push("3 scale cases: one manager holding a term with 15 / 280 / 65792 derivative classes; every class derivative of the term and of its complement".to_string());
+    // many terms in one manager: 30000 independent two-letter words w_i = [a_i, b_i]; after all of them exist
+    // (ids far beyond 2^16) and with an ever warmer derivative cache, str(w_i) must accept w_i and reject w_(i+1)
+    {
+        let mut o = Outcome::default();
+        let res = catch(|| {
+            let mut fails: Vec<(String, String)> = Vec::new();
+            let mut m = ReManager::new();
+            let n = 30000u32;
+            let word = |i: u32| -> Vec<u32> { vec![0x100 + (i % 40000), 0x10000 + (i * 7 % 50000)] };
+            let terms: Vec<RegLan> = (0..n).map(|i| m.str(&SmtStringOf(&word(i)))).collect();
+            let mut evals = 0u64;
+            for i in 0..n {
+                let t = terms[i as usize];
+                let own = m.str_in_re(&SmtStringOf(&word(i)), t);
+                let other = m.str_in_re(&SmtStringOf(&word((i + 1) % n)), t);
+                let half = m.str_in_re(&SmtStringOf(&word(i)[..1]), t);
+                evals += 3;
+                if !own || other || half {
+                    fails.push(("C07/language-depends-on-history".into(), format!("manager with {} word terms: term #{} = {} accepts its own word: {}, the next word: {}, its first letter alone: {}", n, i, t, own, other, half)));
+                    break;
+                }
+                // re-issuing the construction gives the same term
+                if i % 997 == 0 && ptr(m.str(&SmtStringOf(&word(i)))) != ptr(t) {
+                    fails.push(("C07/rebuild-gives-different-term".into(), format!("manager with {} word terms: str(w_{}) re-issued gives a different term", n, i)));
+                    break;
+                }
+            }
+            fails.push(("__evals".into(), evals.to_string()));
+            fails
+        });
+        match res {
+            Ok(fails) => {
+                for (c, msg) in fails {
+                    if c == "__evals" {
+                        o.evals += msg.parse::<u64>().unwrap_or(0);
+                    } else {
+                        o.fail(&c, msg);
+                    }
+                }
+            }
+            Err(msg) => o.fail("C07/panics", format!("manager with many word terms: {}", msg)),
+        }
+        sink.case(&o, true, || "scale case: one manager holding 30000 two-letter word terms (ids beyond 2^16), membership of every term re-checked on a warm cache".to_string());
+    }
+    sink.stats.exhaustive_spaces.push("4 scale cases: one manager holding a term with 15 / 280 / 65792 derivative classes (every class derivative of the term and of its complement); one manager holding 30000 word terms (membership of each re-checked)".to_string());
     sink.stats.samples.push("[enum] scale case: inter_list of 257 x star(inter_list of 256 characters) -- 65792 derivative classes".to_string());
 }
 
